@@ -374,5 +374,5 @@ def parts(ctx):
     max_len = 16384 if ctx.quick else 262144
     return [
         EnumPart("matrix", _matrix_count, _matrix_item, run_case, exhaustive=False),
-        HypPart("random", G.case_strategy(G.all_classes(), max_len), run_case, {"quick": 640, "thorough": 24000}),
+        HypPart("random", G.case_strategy(G.all_classes(True), max_len), run_case, {"quick": 640, "thorough": 24000}),
     ]
